@@ -1,29 +1,68 @@
 #!/usr/bin/env python3
-"""Apply every seeded change (seeded/<id>/patch.diff) to /repo in turn, run the quick check(s) of the
-property it breaks, verify that a VIOLATION is raised, and undo the change.  Not a registered check:
-a self-test of the machinery (DESIGN.md section 12)."""
+"""Self-test of the machinery (DESIGN.md section 12), not a registered check.
+
+  seeded_regress.py [ids...]          every breaking change seeded/<id>/patch.diff is applied to /repo in turn, the
+                                      quick check of the property it breaks must raise a VIOLATION, the patch is undone
+  seeded_regress.py --harmless [ids]  every behaviour-preserving refactoring seeded/harmless/<id>/patch.diff (and the
+                                      seeded changes whose meta.json says "expect": "quiet") is applied in turn and ALL
+                                      twenty quick checks must stay silent
+
+Nothing is ever committed to /repo; the script refuses to run on a dirty tree and restores it after each patch."""
 import json, os, subprocess, sys
 ROOT = os.path.dirname(os.path.dirname(os.path.abspath(__file__)))
 REPO = "/repo"
-only = sys.argv[1:]
-res = {}
-for d in sorted(os.listdir(os.path.join(ROOT, "seeded"))):
-    if only and d not in only:
+args = sys.argv[1:]
+harmless = "--harmless" in args
+only = [a for a in args if not a.startswith("--")]
+PROPS = ["C%02d" % i for i in range(1, 21)]
+
+
+def clean():
+    return not subprocess.run(["git", "-C", REPO, "status", "--porcelain", "--untracked-files=no"],
+                              capture_output=True, text=True).stdout.strip()
+
+
+def check(prop):
+    out = subprocess.run([os.path.join(ROOT, "check"), prop, "quick"], capture_output=True, text=True, cwd=ROOT).stdout
+    n = out.count("VIOLATION property=")
+    found = sum(1 for l in out.splitlines() if l.startswith("VIOLATION") and "no-failing-input-found" not in l)
+    return n, found
+
+
+def entries():
+    base = os.path.join(ROOT, "seeded")
+    for d in sorted(os.listdir(base)):
+        if d == "harmless":
+            for h in sorted(os.listdir(os.path.join(base, d))):
+                yield "harmless/" + h, os.path.join(base, d, h), True
+        else:
+            meta = json.load(open(os.path.join(base, d, "meta.json")))
+            yield d, os.path.join(base, d), meta.get("expect") == "quiet"
+
+
+res, bad = {}, []
+for name, path, quiet in entries():
+    if quiet != harmless or (only and name not in only and os.path.basename(name) not in only):
         continue
-    patch = os.path.join(ROOT, "seeded", d, "patch.diff")
-    prop = d[:3]
-    if subprocess.run(["git", "-C", REPO, "status", "--porcelain", "--untracked-files=no"], capture_output=True, text=True).stdout.strip():
+    if not clean():
         print("refusing: /repo has uncommitted changes"); sys.exit(2)
-    if subprocess.run(["git", "-C", REPO, "apply", patch]).returncode != 0:
-        res[d] = "patch does not apply"; continue
+    if subprocess.run(["git", "-C", REPO, "apply", os.path.join(path, "patch.diff")]).returncode != 0:
+        res[name] = "patch does not apply"; bad.append(name); continue
     try:
-        out = subprocess.run([os.path.join(ROOT, "check"), prop, "quick"], capture_output=True, text=True, cwd=ROOT).stdout
-        n = out.count("VIOLATION property=")
-        found = sum(1 for l in out.splitlines() if l.startswith("VIOLATION") and "no-failing-input-found" not in l)
-        res[d] = "caught by %s quick: %d violations (%d with a failing input)" % (prop, n, found) if n else "MISSED by %s quick" % prop
+        if quiet:
+            alarms = [p for p in PROPS if check(p)[0]]
+            res[name] = "quiet on all 20 quick checks" if not alarms else "FALSE ALARM from %s" % alarms
+            if alarms:
+                bad.append(name)
+        else:
+            prop = name[:3]
+            n, found = check(prop)
+            res[name] = ("caught by %s quick: %d violations (%d with a failing input)" % (prop, n, found)) if n else "MISSED by %s quick" % prop
+            if not n:
+                bad.append(name)
     finally:
         subprocess.run(["git", "-C", REPO, "checkout", "--", "."])
-    print(d, "->", res[d], flush=True)
-missed = [d for d, r in res.items() if not r.startswith("caught")]
-print("seeded changes: %d, caught: %d, not caught by their own property's quick check: %s" % (len(res), len(res) - len(missed), missed))
-sys.exit(1 if missed else 0)
+    print(name, "->", res[name], flush=True)
+print("%s: %d, as expected: %d, not as expected: %s" % ("behaviour-preserving changes" if harmless else "breaking changes",
+                                                         len(res), len(res) - len(bad), bad))
+sys.exit(1 if bad else 0)
